@@ -39,14 +39,14 @@ type verifEmbedded struct {
 
 type verifNested struct {
 	verifEmbedded
-	P    *verifInner       `json:"p,omitempty"`
-	L    []int16           `json:"l"`
-	M    map[string]uint8  `json:"m"`
-	When time.Time         `json:"when"`
-	Raw  []byte            `json:"raw"`
-	Skip int               `json:"-"`
-	Self *verifNested      `json:"self,omitempty"`
-	Kids []*verifNested    `json:"kids"`
+	P    *verifInner            `json:"p,omitempty"`
+	L    []int16                `json:"l"`
+	M    map[string]uint8       `json:"m"`
+	When time.Time              `json:"when"`
+	Raw  []byte                 `json:"raw"`
+	Skip int                    `json:"-"`
+	Self *verifNested           `json:"self,omitempty"`
+	Kids []*verifNested         `json:"kids"`
 	ByK  map[string]*verifInner `json:"byk"`
 }
 
@@ -179,5 +179,78 @@ func verifH_C15_gen() {
 	_, _ = NewSchemaRefForValue(&verifNested{}, openapi3.Schemas{})
 	_, _ = NewSchemaRefForValue(&verifScalars{}, nil)
 	verifSharedEnd()
+	verifReach("end")
+}
+
+// ---- nil pointers: every position where encoding/json writes null ----
+
+type verifPtrs struct {
+	PT   *time.Time             `json:"pt"`
+	PI   *verifInner            `json:"pi"`
+	PN   *int32                 `json:"pn"`
+	PS   *string                `json:"ps"`
+	LP   []*verifInner          `json:"lp"`
+	MP   map[string]*verifInner `json:"mp"`
+	LPN  []*int32               `json:"lpn"`
+	Self *verifPtrs             `json:"self"`
+	Kids []*verifPtrs           `json:"kids"`
+	ByK  map[string]*verifPtrs  `json:"byk"`
+}
+
+func verifEncPtrs(p string, depth int) map[string]any {
+	pick := func(name string, v func() any) any {
+		if depth > 0 && verifChoose(p+name, 2) == 1 {
+			return v()
+		}
+		return nil
+	}
+	inner := func() any { return map[string]any{"n": float64(verifNondetInt16(p + "n"))} }
+	o := map[string]any{}
+	o["pt"] = pick("pt", func() any { return "2024-02-29T23:59:59Z" })
+	o["pi"] = pick("pi", inner)
+	o["pn"] = pick("pn", func() any { return float64(verifNondetInt32(p + "pn")) })
+	o["ps"] = pick("ps", func() any { return "s" })
+	o["lp"] = []any{pick("lp0", inner)}
+	o["mp"] = map[string]any{"k": pick("mpk", inner)}
+	o["lpn"] = []any{pick("lpn0", func() any { return float64(verifNondetInt32(p + "lpn")) })}
+	o["self"], o["kids"], o["byk"] = nil, []any{}, map[string]any{}
+	if depth > 0 {
+		o["self"] = pick("self", func() any { return verifEncPtrs(p+"self.", 0) })
+		o["kids"] = []any{pick("kid0", func() any { return verifEncPtrs(p+"kid.", 0) })}
+		o["byk"] = map[string]any{"k": pick("byk0", func() any { return verifEncPtrs(p+"byk.", 0) })}
+	}
+	return o
+}
+
+//verif:harness id=C18 tier=quick,thorough witness=end bounds="nil pointers: struct with *time.Time, *struct, *int32, *string, []*struct, map[string]*struct, []*int32 and self references *T, []*T, map[string]*T, none omitempty; every pointer independently nil (JSON null) or set (self references one level deep, the inner value with all pointers nil or set independently is pruned to all-nil); each property of the generated schema must accept its member of the encoding"
+func verifH_C18_nil_pointers() {
+	comps := openapi3.Schemas{}
+	ref, err := NewSchemaRefForValue(&verifPtrs{}, comps)
+	verifAssert(err == nil && ref != nil, "C18 nil pointers: a schema is generated")
+	if err != nil || ref == nil {
+		return
+	}
+	root := &openapi3.SchemaRef{Ref: ref.Ref, Value: ref.Value}
+	verifAssert(verifResolveGen(root, comps, 0), "C18 nil pointers: every $ref in the generated schema names a component")
+	for _, c := range comps {
+		verifAssert(verifResolveGen(c, comps, 0), "C18 nil pointers: every $ref in a generated component names a component")
+	}
+	if root.Value == nil {
+		return
+	}
+	enc := verifEncPtrs("", 1)
+	for _, name := range []string{"pt", "pi", "pn", "ps", "lp", "mp", "lpn", "self", "kids", "byk"} {
+		prop := root.Value.Properties[name]
+		verifAssert(prop != nil && prop.Value != nil, "C18 nil pointers: property "+name+" is described")
+		if prop == nil || prop.Value == nil {
+			continue
+		}
+		verr := prop.Value.VisitJSON(enc[name])
+		// known finding: a self reference is generated as a bare $ref, which cannot say "nullable";
+		// every finite value of a recursive type ends in a nil pointer, so every encoding of these
+		// three members contains a null at such a position
+		verifKnown("C18-null-at-recursive-pointer", name == "self" || name == "kids" || name == "byk")
+		verifAssert(verr == nil, "C18 nil pointers: the schema of member "+name+" accepts its encoding (null for a nil pointer)")
+	}
 	verifReach("end")
 }
